@@ -67,6 +67,15 @@ struct Scheduler
     uint64_t inter;
     int last_kind[MAXT];
     long pairs[8][8];
+    // pre-emption at basic-block edges of the instrumented library code (see the trace-pc-guard callback below)
+    long edge_mean;          // 0: off; otherwise gaps are uniform in [1, 2*edge_mean]
+    int use_explicit_gaps;
+    long* explicit_gaps;
+    long nexplicit_gaps, explicit_gap_pos;
+    long* gaps;              // the gaps that were used, in global draw order (replayable)
+    long ngaps, cap_gaps;
+    long edge_yields, edges_seen;
+    int overflow;            // a log ran out of its fixed capacity: the run cannot be replayed (engine error)
 };
 
 static void futex_wait(volatile int* addr, int val) { syscall(SYS_futex, addr, FUTEX_WAIT_PRIVATE, val, nullptr, nullptr, 0); }
@@ -95,11 +104,9 @@ static void mix(Scheduler* s, uint64_t v)
 }
 static void record_choice(Scheduler* s, int next)
 {
-    if (s->nchoices == s->cap_choices)
-    {
-        s->cap_choices *= 2;
-        s->choices = (int*) realloc(s->choices, sizeof(int) * (size_t) s->cap_choices);
-    }
+    // fixed capacity, allocated by the controller before the tasks start: growing the log from a task thread would
+    // be a (harness) write that TSan attributes to the task and reports against the next task's realloc
+    if (s->nchoices == s->cap_choices) { s->overflow = 1; return; }
     s->choices[s->nchoices++] = next;
 }
 
@@ -132,14 +139,62 @@ Scheduler* sched_create(int ntasks, int policy, double p, uint64_t seed, const i
         s->explicit_schedule = (int*) malloc(sizeof(int) * (size_t) (nexplicit + 1));
         memcpy(s->explicit_schedule, explicit_schedule, sizeof(int) * (size_t) nexplicit);
     }
-    s->cap_choices = 4096;
+    s->cap_choices = 1L << 21;
     s->choices = (int*) malloc(sizeof(int) * (size_t) s->cap_choices);
     s->inter = 0x243f6a8885a308d3ULL;
     return s;
 }
 
+void sched_set_edge(Scheduler* s, long mean_gap, const long* explicit_gaps, long nexplicit)
+{
+    s->edge_mean = mean_gap;
+    if (explicit_gaps)
+    {
+        s->use_explicit_gaps = 1;
+        s->nexplicit_gaps = nexplicit;
+        s->explicit_gaps = (long*) malloc(sizeof(long) * (size_t) (nexplicit + 1));
+        memcpy(s->explicit_gaps, explicit_gaps, sizeof(long) * (size_t) nexplicit);
+    }
+    s->cap_gaps = 1L << 18;
+    s->gaps = (long*) malloc(sizeof(long) * (size_t) s->cap_gaps);
+}
+
+static long next_gap(Scheduler* s)
+{
+    long g;
+    if (s->use_explicit_gaps)
+        g = s->explicit_gap_pos < s->nexplicit_gaps ? s->explicit_gaps[s->explicit_gap_pos++] : LONG_MAX;
+    else
+        g = 1 + (long) s_below(s->rng, (uint64_t) (2 * s->edge_mean));
+    if (g < 1) g = 1;
+    if (s->ngaps == s->cap_gaps) { s->overflow = 1; return LONG_MAX; }
+    s->gaps[s->ngaps++] = g;
+    return g;
+}
+
+// per-thread state of the edge callback: plain __thread PODs in this uninstrumented translation unit
+static __thread Scheduler* t_sched = nullptr;
+static __thread int t_task = -1;
+static __thread long t_countdown = 0;
+
+void sched_edge_attach(Scheduler* s, int task)
+{
+    if (!s || (s->edge_mean <= 0 && !s->use_explicit_gaps)) return;
+    t_task = task;
+    t_countdown = next_gap(s);
+    t_sched = s;
+}
+void sched_edge_detach() { t_sched = nullptr; }
+long sched_edge_yields(const Scheduler* s) { return s->edge_yields; }
+long sched_edges_seen(const Scheduler* s) { return s->edges_seen; }
+long sched_ngaps(const Scheduler* s) { return s->ngaps; }
+int sched_overflow(const Scheduler* s) { return s->overflow; }
+const long* sched_gaps(const Scheduler* s) { return s->gaps; }
+
 void sched_destroy(Scheduler* s)
 {
+    free(s->explicit_gaps);
+    free(s->gaps);
     free(s->explicit_schedule);
     free(s->choices);
     free(s);
@@ -269,6 +324,31 @@ void sched_pair_matrix(const Scheduler* s, long out[8][8])
 }
 
 }  // namespace sim
+
+// ---- pre-emption at basic-block edges ---------------------------------------------------------------------------
+// The library translation units of the TSan build are compiled with -fsanitize-coverage=trace-pc-guard: every
+// basic-block edge of the real Spectra/Eigen code calls back into this (uninstrumented) file. A task counts its
+// edges down from a seeded gap and yields to the scheduler when the counter reaches zero, so a context switch can
+// land between ANY two basic blocks of library code, not only at operator applications and checkpoints.
+extern "C" {
+__attribute__((used, visibility("default"))) void __sanitizer_cov_trace_pc_guard_init(uint32_t* start, uint32_t* stop)
+{
+    static uint32_t n = 0;
+    if (start == stop || *start) return;
+    for (uint32_t* x = start; x < stop; x++) *x = ++n;
+}
+__attribute__((used, visibility("default"))) void __sanitizer_cov_trace_pc_guard(uint32_t* guard)
+{
+    sim::Scheduler* s = sim::t_sched;
+    if (!s) return;
+    s->edges_seen++;
+    if (--sim::t_countdown > 0) return;
+    sim::t_countdown = sim::next_gap(s);
+    s->edge_yields++;
+    sim::mix(s, 0xED6E00000000ULL | (uint64_t) *guard);
+    sim::sched_yield(s, sim::t_task, 6);
+}
+}
 
 // ---- sanitizer report counter (uninstrumented on purpose, see context.cpp) ----------------------------------
 namespace sim {
